@@ -1,4 +1,6 @@
 #!/bin/bash
+# runs on changed trees must not overwrite the committed evidence of the unchanged tree
+export VERIF_EVIDENCE=/verif/build/evidence-changed-tree
 # tools/harmless_matrix.sh : property-preserving edits (harmless/<id>/patch.diff) x every claimed check; none may report a VIOLATION
 cd /verif
 props=$(python3 -c "import json;print(' '.join(c['property_id'] for c in json.load(open('MANIFEST.json'))['checks']))")
